@@ -133,6 +133,27 @@ class Frame:
         self.depth = depth
 
 
+class Thunk:
+    """Call-by-name binding of a dummy argument (only created when
+    Interp.by_name is set): the actual argument is re-evaluated in the
+    caller's frame at every use of the dummy."""
+    __slots__ = ("dummy", "arg", "caller", "callee")
+
+    def __init__(self, dummy, arg, caller, callee):
+        self.dummy = dummy
+        self.arg = arg
+        self.caller = caller
+        self.callee = callee
+
+    def force(self, interp):
+        arg = self.arg
+        if isinstance(arg, N.Reference) and not isinstance(arg, N.Call):
+            kind, obj = "ref", interp.designator(arg, self.caller)
+        else:
+            kind, obj = "val", interp.eval(arg, self.caller)
+        return interp._bind(self.dummy, kind, obj, self.callee, arg)
+
+
 def _size(shape):
     tot = 1
     for ext in shape:
@@ -335,6 +356,10 @@ class Interp:
         self.loop_stack = []     # [loop node, current iteration value]
         self.stmt_stack = []
         self.output = []         # PRINT / PSyData style events
+        # Diagnostic mode (never used as an oracle): dummies of routines
+        # called from the interpreted code are bound by NAME, i.e. the
+        # semantics of textually substituting the actual arguments.
+        self.by_name = False
 
     # -- events ----------------------------------------------------------
     def _rd(self, cell, node):
@@ -441,7 +466,10 @@ class Interp:
         """Storage object of a symbol as seen from `frame`."""
         key = id(sym)
         if key in frame.store:
-            return frame.store[key]
+            stor = frame.store[key]
+            if type(stor) is Thunk:
+                return stor.force(self)
+            return stor
         if key in self.globals:
             return self.globals[key]
         # A symbol object that is not declared in the interpreted tree (e.g.
@@ -818,6 +846,8 @@ class Interp:
             if self.hooks is not None and hasattr(self.hooks, "call"):
                 return self.hooks.call(self, node, frame)
             raise Unsupported(f"call to unknown routine '{name}'")
+        if self.by_name:
+            return self._call_by_name(rout, node, frame, function)
         actuals = []
         for arg in node.arguments:
             if isinstance(arg, N.Reference) and not isinstance(arg, N.Call):
@@ -827,6 +857,33 @@ class Interp:
                 actuals.append(("val", self.eval(arg, frame), arg))
         names = list(node.argument_names)
         return self.call_routine(rout, actuals, names, function, node)
+
+    def _call_by_name(self, rout, node, caller, function):
+        """Positional call with every dummy bound to a Thunk."""
+        if len(self.frames) > 40:
+            raise UB("recursion")
+        if any(name is not None for name in node.argument_names):
+            raise Unsupported("named arguments in by-name mode")
+        frame = Frame(rout, len(self.frames))
+        dummies = list(rout.symbol_table.argument_list)
+        if len(node.arguments) > len(dummies):
+            raise UB("args", f"too many arguments to {rout.name}")
+        for dummy, arg in zip(dummies, node.arguments):
+            frame.store[id(dummy)] = Thunk(dummy, arg, caller, frame)
+        self.frames.append(frame)
+        try:
+            try:
+                self.exec_schedule(rout, frame)
+            except _Return:
+                pass
+        finally:
+            self.frames.pop()
+        if function:
+            rsym = rout.return_symbol
+            if rsym is None:
+                raise UB("args", f"{rout.name} is not a function")
+            return self.read(self.storage(rsym, frame), node)
+        return None
 
     def call_routine(self, rout, actuals, names=None, function=False,
                      node=None):
